@@ -50,7 +50,7 @@ def sensorNoiseSame (d : VDef) (s : SensorSkel) : Bool :=
   | none => false
 def sensorNoiseCount (d : VDef) (s : SensorSkel) : Bool :=
   match d.sensorNoise.lookup s.key with
-  | some rs => (rs.length == s.readingNames.length) && subsetB rs s.readingNames
+  | some rs => (rs.length == s.readingNames.length) && sameSet rs s.readingNames
   | none => false
 def calSizesOk (d : VDef) : Bool :=
   d.calibration.isEmpty || (!d.calKeys.isEmpty && d.calKeys.length == d.calibration.length)
@@ -87,7 +87,8 @@ def acceptsCompile (d : VDef) : Bool := sameSet d.calKeys d.calibration && calSi
 def modelValidation (d : VDef) : Bool := noiseKeysOk d && sameSet d.calKeys d.calibration && sensorSymsOk d
 
 /-- `compile_ekf` (both back-ends): validation, calibration sizes, `len(process_noise) == control_size`,
-non-negative noise, sensor-noise keys equal, per-sensor reading counts equal and no unknown reading -/
+non-negative noise (each supplied value, exactly), sensor-noise keys equal, per-sensor reading counts equal and the *names*
+of the noise entries exactly the reading names (so a duplicated name standing in for a missing one is refused) -/
 def acceptsEkf (d : VDef) : Bool :=
   modelValidation d && calSizesOk d && (d.noise.length == d.control.length) && noiseNonneg d &&
   sensorKeysSame d && d.sensors.all (sensorNoiseCount d)
